@@ -545,7 +545,7 @@ pub fn list_strategy() -> BoxedStrategy<Case> {
     .boxed()
 }
 
-fn raw_strategy() -> BoxedStrategy<Raw> {
+pub fn raw_strategy() -> BoxedStrategy<Raw> {
     let s = prop_oneof![
         4 => "[a-cA-C=]{0,6}".prop_map(|s| s.into_bytes()),
         2 => proptest::collection::vec(any::<u8>(), 0..10),
